@@ -422,6 +422,13 @@ func (r *Rerunner) run() {
 			// If we encountered an error that is not the retry sentinel,
 			// we should stop the rerunner.
 			verifEv("rr.exitfail", r, nil)
+			// The rerunner will not run again: let go of the last good
+			// computation, as Stop does, so that its resources are cleaned up.
+			r.stop = true
+			if r.computation != nil {
+				go r.computation.node.release()
+				r.computation = nil
+			}
 			return
 		}
 		// Reset the cache for sentinel errors so we get a clean slate.
